@@ -41,16 +41,37 @@ CLAIM = dict(
           "the schedule multiplies the temperature by at most 0.95 per iteration and stops when the cost is 0 or the "
           "temperature is below 0.005 * cost / #nets, and the cost takes finitely many values, so it is finite for every "
           "finite starting temperature and both kernels are driven by the same schedule - and as a broken correspondence "
-          "otherwise."),
+          "otherwise. CONTROL SKELETON OF THE TEMPERATURE SCHEDULE (new, Model/C02Sched.lean, Props/C02Sched.lean): the "
+          "loop `while temperature > 0.005 * cost / len(nets)` of sa/algorithm.py is modelled with its float tests as "
+          "oracle bits of each pass (loop test still true / current_cost == 0 / callback returned False) and the "
+          "num_steps kernel steps of the pass as proposals of the proved kernel model; PROVED for every oracle stream: "
+          "every pass performs exactly num_steps kernel steps (schedLoop_steps); if the loop test is reported false at "
+          "pass N the loop ends within N passes and sa.place has made at most len(movable) + N * num_steps kernel steps "
+          "(schedLoop_terminates_under_cooling, saPlace_terminates_under_cooling, schedLoop_stops_at_cooled); that "
+          "hypothesis is NECESSARY - with an oracle that never reports cooled / zero cost / callback stop no run ever "
+          "returns (schedLoop_needs_a_stop) and on a concrete two-vertex problem the loop runs out of EVERY fuel "
+          "(schedLoop_diverges_without_cooling, kernel-checked); the scheduled run IS a run of saPlace on the "
+          "concatenated proposals (schedLoop_flat, saPlaceSched_refines_saPlace), hence Feasible for every outcome of "
+          "the float tests (saPlaceSched_sound). Tied to the code on every run: PythonKernel.run_steps and the callback "
+          "are recorded, the passes are replayed through the model, and placement, number of passes, number of kernel "
+          "steps and the reason for leaving the loop (cooled / zero cost / callback) must agree. In EXACT arithmetic the "
+          "cooling hypothesis is a theorem (Props/C02SchedExact.lean): a non-negative rational temperature multiplied by a "
+          "factor <= 19/20 per pass falls to or below every positive threshold (geometric_cools), so a schedule whose "
+          "threshold stays above a positive number while the loop runs terminates (saPlace_terminates_exact_schedule); "
+          "only the rounding of IEEE doubles separates this from the code."),
     design="3/C02",
     note=("NOT proved, only validated on every run: rig_c_sa (C annealing kernel) is an opaque binary, covered only by the "
-          "Feasible oracle on its outputs (and by undocumented-exception / completeness reporting). The vertex orders "
-          "computed by breadth_first_vertex_order / rcm and RCM's chip order are not modelled: they are recorded and handed "
-          "to the model (the theorems hold for every order; the only-documented-errors theorem needs a permutation of the "
-          "vertices, the completeness theorem a chip order covering the free capacity - proved for Hilbert and "
-          "list(machine) only). Float cost/temperature arithmetic of the annealer is abstracted to the recorded accept "
-          "decision; termination of the temperature schedule and of the `while dst == src` rejection sampling is not "
-          "proved (bounded in the harness through the on_temperature_change callback). The float expression "
+          "Feasible oracle on its outputs (and by undocumented-exception / completeness reporting). In this module's correspondence "
+          "the vertex orders computed by breadth_first_vertex_order / rcm and RCM's chip order are recorded and handed "
+          "to the model of the sequential placer (the theorems hold for every order); the order functions themselves are "
+          "modelled and proved in the companion C02Orders (permutation, coverage, termination). Float cost/temperature arithmetic of the annealer is abstracted to the recorded accept "
+          "decision; termination of the temperature schedule is proved only UNDER THE HYPOTHESIS that the float loop "
+          "test eventually fails (saPlace_terminates_under_cooling; the hypothesis is necessary: "
+          "schedLoop_diverges_without_cooling) - that hypothesis is a property of IEEE double arithmetic (a finite "
+          "positive temperature multiplied by a factor <= 0.95 per pass underflows to 0.0 within about 28400 passes, "
+          "0.0 > x is false for x >= 0, NaN compares false; only temperature = +inf with a positive cost would keep the "
+          "test true) and is part of the trusted base; termination of the `while dst == src` rejection sampling of _step "
+          "holds only almost surely and is not proved. The float expression "
           "int(ceil(log(n, 2.0))) of hilbert_chip_order is modelled by the exact ceil-log2 and compared for n <= 256 "
           "(coverage holds for any level >= the exact one). Domain (theorem hypotheses WF / Consistent / InDomain / "
           "EmptyOK, applied to the generators): vertices_resources is a dict of non-negative demands for resources the "
@@ -70,7 +91,13 @@ THEOREMS = ["seqPlace_sound", "randPlace_sound", "saPlace_initial_sound", "seqPl
             "randPlace_complete_unit", "saPlace_initial_complete_unit",
             "hilbert_curve_exact", "hilbert_covers", "hilbertPlace_complete_unit",
             "saStep_documented", "saPlace_documented", "saPlace_complete_unit",
-            "seqPlace_complete_unit_default"]
+            "seqPlace_complete_unit_default",
+            # Props/C02Sched.lean: control skeleton of the annealing temperature schedule
+            "schedLoop_steps", "schedLoop_terminates_under_cooling", "schedLoop_stops_at_cooled",
+            "saPlace_terminates_under_cooling", "schedLoop_needs_a_stop", "schedLoop_diverges_without_cooling",
+            "schedLoop_flat", "saPlaceSched_refines_saPlace", "saPlaceSched_sound",
+            # Props/C02SchedExact.lean: the cooling hypothesis holds in exact (rational) arithmetic
+            "geometric_cools", "saPlace_terminates_exact_schedule"]
 
 RULE = ("problems: 0-40 vertices (0-3 units of 1-3 resources, some needing nothing), random nets, machines 1x1..10x10 "
         "with dead chips (some made dead after construction) and per-chip resource exceptions drawn independently of them "
@@ -486,7 +513,8 @@ def outcome(fn, limit=None):
 
 # the models of these placers are total functions proved never to run out of fuel (seqPlace_terminates; randLoop and
 # the constraint handling are structurally recursive): an implementation call that does not return is a violation.
-# The temperature schedule of the annealer is not modelled: there it is a broken correspondence.
+# The temperature schedule of the annealer terminates only under a hypothesis on float arithmetic
+# (saPlace_terminates_under_cooling): there it is a broken correspondence.
 TERMINATING = ("sequential", "sequential-custom", "breadth_first", "hilbert", "rcm", "rand")
 
 
@@ -509,6 +537,17 @@ def sa_twin(prob, name, limit):
                                        kernel=kernel, kernel_kwargs=kk), limit)
     out["cpu"] = time.process_time() - t0
     return out
+
+
+def hang_verdict_reached(ctx, hangs=None):
+    """True once many implementation calls of this run did not return AND a did-not-return violation has been
+    recorded: the verdict is established, and every further hanging call costs its CPU limit - the remaining
+    problems of the stream are skipped so that the run ends with its verdict instead of a timeout."""
+    n = _HANGS[0] if hangs is None else hangs
+    if n >= 30 and any(k == "did-not-return" for k, _, _ in ctx.concrete):
+        ctx.tag("stream-cut-short-after-hangs")
+        return True
+    return False
 
 
 def did_not_return(ctx, name, impl, case, prob=None):
@@ -564,6 +603,39 @@ def canon_model(r):
 
 def nonneg_chips(chips):
     return [[c[0], c[1]] for c in chips if c[0] >= 0 and c[1] >= 0]
+
+
+# ---------------------------------------------------------------------------
+# the control skeleton of the annealing schedule (Model/C02Sched.lean)
+# ---------------------------------------------------------------------------
+
+SCHED_MAX_STEPS = 3000
+
+
+def schedule_request(base, locs, vs, steps, passes, cb_rets, has_cb):
+    """The run of sa.place as the model of its control skeleton sees it: the first run_steps call is the warm-up,
+    every later one is a pass through `while temperature > ...` whose float tests are handed over as oracle bits
+    (the loop test was true; `current_cost == 0`; the callback returned False).  -> {"req", "expect"} or None when
+    the recording is not usable (too long for the quick tier, or a `_step` call without an RNG draw)."""
+    if not passes or len(steps) > SCHED_MAX_STEPS:
+        return None
+    if any(ps["b"] - ps["a"] != ps["num"] or ps["raw"] != ps["num"] for ps in passes):
+        return None
+    enc = lambda ss: [{"src": s_["src"], "dst": s_["dst"], "accept": s_["accept"]} for s_ in ss]
+    loop = passes[1:]
+    ticks, why = [], "cooled"
+    for k, ps in enumerate(loop):
+        zero = bool(ps["cost"] == 0)
+        stop = bool((not zero) and has_cb and k < len(cb_rets) and cb_rets[k] is False)
+        ticks.append({"hot": True, "steps": enc(steps[ps["a"]:ps["b"]]), "zero": zero, "stop": stop})
+        if k == len(loop) - 1:
+            why = "zero-cost" if zero else ("callback" if stop else "cooled")
+    num = loop[0]["num"] if loop else 1
+    if any(ps["num"] != num for ps in loop):
+        return None
+    req = dict(base, suite="c02sched", op="sched", locs=locs, vs=vs, warm=enc(steps[passes[0]["a"]:passes[0]["b"]]),
+               num_steps=num, ticks=ticks, fuel=len(loop))
+    return {"req": req, "expect": {"iterations": len(loop), "kernel_steps": len(steps), "why": why}}
 
 
 # ---------------------------------------------------------------------------
@@ -678,6 +750,7 @@ def run_placers(prob):
 
     def rec_step(*a):
         n0 = len(rr.log)
+        raw_steps[0] += 1
         machine_, wrap = a[8], a[9]
         swapped, delta = real_step(*a)
         ev = rr.log[n0:]
@@ -693,10 +766,20 @@ def run_placers(prob):
                       "feasible": bool(swapped or asked)})
         return swapped, delta
 
+    passes = []          # one record per run_steps call: the control skeleton of the temperature schedule
+    raw_steps = [0]
+    cb_rets = []
+
     class K(python_kernel.PythonKernel):
         def __init__(self, *a, **k):
             used.append(1)
             python_kernel.PythonKernel.__init__(self, *a, **k)
+
+        def run_steps(self, num_steps, distance_limit, temperature):
+            a0, r0 = len(steps), raw_steps[0]
+            ret = python_kernel.PythonKernel.run_steps(self, num_steps, distance_limit, temperature)
+            passes.append({"num": num_steps, "a": a0, "b": len(steps), "raw": raw_steps[0] - r0, "cost": ret[1]})
+            return ret
 
     temps = [0]
 
@@ -704,6 +787,16 @@ def run_placers(prob):
         temps[0] += 1
         if prob["max_temps"] is not None and temps[0] >= prob["max_temps"]:
             return False
+
+    def recording(cb_):
+        if cb_ is None:
+            return None
+
+        def rec_cb(*a):
+            ret = cb_(*a)
+            cb_rets.append(ret)
+            return ret
+        return rec_cb
 
     sa_alg.apply_same_chip_constraints = rec_same
     python_kernel._step = rec_step
@@ -718,6 +811,7 @@ def run_placers(prob):
             cb = None                               # no callback at all: the anneal runs to its own end
             conv.append("on_temperature_change=None")
         conv.append("sa:" + how)
+        cb = recording(cb)
         lim = 120 if prob["max_temps"] is None else 30
         if prob.get("unbounded"):
             lim = 20
@@ -747,7 +841,8 @@ def run_placers(prob):
     add("sa-python", out,
         dict(base, op="sa", locs=locs, vs=vs,
              steps=[{"src": s["src"], "dst": s["dst"], "accept": s["accept"]} for s in steps] if used else None),
-        feasible=[s["feasible"] for s in steps], kernel_used=bool(used), n_steps=len(steps))
+        feasible=[s["feasible"] for s in steps], kernel_used=bool(used), n_steps=len(steps),
+        sched=schedule_request(base, locs, vs, steps, passes, cb_rets, cb is not None) if (used and "ok" in out) else None)
 
     # annealing, C kernel: opaque, oracle only (initial placement part is the same code as above)
     try:
@@ -863,6 +958,9 @@ def eval_problems(ctx, probs):
             if r.get("chip_order") is not None:
                 reqs.append(dict(base, suite="c02", op="hilbert", level=None))
                 slots.append((r, "hil"))
+            if r.get("sched") is not None:
+                reqs.append(r["sched"]["req"])
+                slots.append((r, "sched_model"))
             if "ok" in r["impl"]:
                 enc = enc_placement(r["impl"]["ok"])
                 r["enc"] = enc
@@ -939,6 +1037,24 @@ def eval_problems(ctx, probs):
                         mm = model
                     if r["kernel_used"]:
                         ctx.tag("sa-python:kernel-steps>0" if r["n_steps"] else "sa-python:kernel-no-steps")
+                    if r.get("sched") is not None:
+                        # the control skeleton of the temperature schedule: same placement, same number of passes
+                        # and kernel steps, same reason for leaving the loop
+                        ctx.traces += 1
+                        sm, ex = r["sched_model"], r["sched"]["expect"]
+                        got = None
+                        if "ok" in sm:
+                            got = {k: sm["ok"][k] for k in ("iterations", "kernel_steps", "why")}
+                            if canon_model({"ok": sm["ok"]["p"]})["ok"] != mi.get("ok"):
+                                got = dict(got, placement="differs")
+                        if got != ex:
+                            ctx.mismatch("c02sched.schedule", "temperature schedule: impl=%r model=%r" % (
+                                ex, got if got is not None else sm), case)
+                        ctx.tag("sa-schedule:ended-" + ex["why"])
+                        ctx.tag("sa-schedule:passes-" + ("0" if ex["iterations"] == 0 else
+                                                         "1" if ex["iterations"] == 1 else ">=2"))
+                    elif r["kernel_used"] and "ok" in impl:
+                        ctx.tag("sa-schedule:not-replayed")
                 else:
                     mi = {"ok": r["enc"]} if "ok" in impl else {"err": impl["err"]}
                     mm = canon_model(model)
@@ -1139,7 +1255,10 @@ def run(ctx):
     hilbert_checks(ctx)
     c02_orders.run_orders(ctx)
     ctx.extra["trusted_base"] = ["rig_c_sa (compiled annealing kernel outside /repo): opaque, checked only by the Feasible oracle",
-                                 "the annealer's float cost/temperature arithmetic is abstracted to the recorded accept decision"]
+                                 "the annealer's float cost/temperature arithmetic is abstracted to the recorded accept decision",
+                                 "IEEE double arithmetic makes the loop test `temperature > 0.005 * cost / len(nets)` of sa.place "
+                                 "false after finitely many passes (temperature *= alpha <= 0.95 reaches 0.0; the hypothesis of "
+                                 "saPlace_terminates_under_cooling, proved necessary by schedLoop_diverges_without_cooling)"]
     ctx.assumptions += [
         "vertices demand (a non-zero amount of) only resources the machine defines - a demand of 0 of a resource the machine lacks is generated; every resource exception lists the machine's resources",
         "per-chip reservations name working chips (a ReserveResourceConstraint at a dead chip is an invalid constraint; the code "
@@ -1147,7 +1266,9 @@ def run(ctx):
         "a same-chip group is location-constrained to at most one chip; constraints mention only known vertices",
         "custom vertex orders are permutations of the vertices (documented precondition of sequential.place)",
         "completeness clause read as: one resource r0, every vertex needs 0 or 1 unit of r0 and nothing else, at least one working chip",
-        "termination of the annealing temperature schedule is bounded by the harness through on_temperature_change"]
+        "termination of the annealing temperature schedule: a theorem under the hypothesis that the float loop test "
+        "eventually fails (trusted base); most generated anneals are additionally bounded through on_temperature_change, "
+        "the rest run to their own end under a CPU limit"]
     n = ctx.scale(1500, 27000)
     if ctx.extended:
         n *= 4
@@ -1164,6 +1285,8 @@ def run(ctx):
             probs.append(gen_problem(rng, big=big))
     for i in range(0, len(probs), 100):
         eval_problems(ctx, probs[i:i + 100])
+        if hang_verdict_reached(ctx):
+            break
     # whole anneals (no bound on the number of temperatures) with strongly heterogeneous net weights
     hetero = [gen_hetero(rng, rng.choice([8, 10, 12]), rng.choice([16, 24])) for _ in range(2)] if ctx.quick else \
         [gen_hetero(rng, rng.choice([12, 16, 20, 24, 24]), rng.choice([30, 40, 60, 60])) for _ in range(12)]
